@@ -36,6 +36,14 @@ def items(ctx):
         nser = rng.choice([1, 2, 2, 3, 3])
         nd = rng.choice([1, 1, 1, 2])
         out.append(make(rng, nser, 3 if nser == 3 else 4, nd))
+    # settings that bind: window 1-2 and penalties 2-3 on longer series, so that dropping or mangling a setting on
+    # one route (e.g. the n-dimensional Python branch) changes the optimal paths
+    for k in range(350 if q else 5000):
+        nd = rng.choice([1, 2, 2])
+        it = make(rng, 2, 5, nd)
+        it["set"]["w"] = rng.choice([1, 1, 2])
+        it["set"]["pen"] = rng.choice([0, 2, 3])
+        out.append(it)
     # byte boundary of the bit-packed mask: 9-10 very short series
     for k in range(60 if q else 600):
         it = make(rng, rng.choice([9, 10]), 1, 1, vals=(0, 1, 3))
